@@ -149,6 +149,9 @@ var nsSets = [][]string{
 	{"http://n2.%s/y#b", "http://n2.%s/y#c", "http://n3.%s/a"},
 	{"http://n3.%s/a", "http://n1.%s/x/a", "http://n4.%s/z/"},
 	{"http://n1.%s/x/c"},
+	// the entity of set 0 again, now referring to an identifier nobody has seen (an update that only introduces a
+	// reference target)
+	{"http://n1.%s/x/a", "http://n5.%s/q#new"},
 }
 
 type nsObserved struct {
@@ -723,7 +726,8 @@ func init() {
 		// writes arriving as transactions through a contextual store (created when the history began / just now), and a
 		// rejected batch that leaves identifiers pending
 		alpha = append(alpha, VOp{K: "use", DS: "A", N: 3, Via: "ctx0"}, VOp{K: "use", DS: "B", N: 0, Via: "ctx"}, VOp{K: "baduse", DS: "A", N: 1},
-			VOp{K: "lookup", N: 0}, VOp{K: "lookup", N: 2})
+			VOp{K: "lookup", N: 0}, VOp{K: "lookup", N: 2},
+			VOp{K: "use", DS: "A", N: 4, Via: "ctx"}, VOp{K: "use", DS: "A", N: 4})
 		depth, budget := 4, 90
 		if !r.Quick() {
 			depth, budget = 6, 1800
